@@ -34,9 +34,13 @@ ASSUMPTIONS = [
     "image of a particle in shear-periodic boxes: (x - n Lx, y + 3/2 n OMEGA Lx t mod Ly, vy + 3/2 n OMEGA Lx) "
     "(docs/boundaryconditions.md, Rein & Liu 2012)",
 ]
-CLASSES = ["boundary/periodic", "boundary/shear", "boundary/open", "tree/gravity", "tree/collision", "tree/none",
-           "crossed_root", "crossed_box", "multi_box_step", "removed_open", "merged", "user_removed", "user_added",
-           "midstep_walks", "force_check", "border/root_face", "border/outer_face", "border/cell_face"]
+CLASSES = ["boundary_hist/boundary/periodic", "boundary_hist/boundary/shear", "boundary_hist/boundary/open",
+           "boundary_hist/tree/gravity", "boundary_hist/tree/collision", "boundary_hist/tree/none",
+           "boundary_hist/crossed_root", "boundary_hist/crossed_box", "boundary_hist/multi_box_step",
+           "boundary_hist/removed_open", "boundary_hist/merged", "boundary_hist/user_removed",
+           "boundary_hist/user_added", "boundary_hist/midstep_walks", "boundary_hist/force_check",
+           "border_hist/border/root_face", "border_hist/border/outer_face", "border_hist/border/cell_face",
+           "border_hist/midstep_walks", "border_hist/force_check"]
 
 BOXES = [1.0, 10.0, 3.7, 12.539722611734991]
 LAYOUTS = [(1, 1, 1), (2, 1, 1), (2, 2, 1), (1, 2, 2), (2, 2, 2), (3, 1, 1), (1, 3, 2), (3, 2, 1)]
@@ -358,14 +362,19 @@ def force_check(sim, cfg, R, ctx):
         return
     A = np.zeros((n, 3), dtype=LD)
     C = np.zeros((n, 3), dtype=LD)
+    absX = np.abs(X).sum(axis=1)
     for sh, vs, amb in R.images(gcfg, sim.t, full=True):
         d = (X[:, None, :] + sh.astype(LD)[None, None, :]) - X[None, :, :]
         r2 = (d * d).sum(axis=2)
         np.fill_diagonal(r2, 1)
-        w = m[None, :] / (r2 * np.sqrt(r2))
+        rr = np.sqrt(r2)
+        w = m[None, :] / (r2 * rr)
         np.fill_diagonal(w, 0)
         A -= (w[:, :, None] * d).sum(axis=1)
-        C += (w[:, :, None] * np.abs(d)).sum(axis=1)
+        # condition: |term| plus the effect of the rounding of the separation itself (coordinates, image shift and,
+        # for shear, the phase vy*t from which the azimuthal offset is reduced) on a 1/r^2 force: 3 |term| * delta/r
+        S = absX[:, None] + absX[None, :] + np.abs(sh).sum() + abs(LD(vs[1]) * LD(sim.t))
+        C += (w[:, :, None] * np.abs(d)).sum(axis=1) + (3 * w * S)[:, :, None].sum(axis=1)
     got = np.stack([s["ax"], s["ay"], s["az"]], axis=1).astype(LD)
     tol = 64 * R.EPS * C * (1 + math.log2(n + 1)) + 1e-300
     ctx.stat_max("force_err/tol", float(np.max(np.abs(got - A) / tol)))
@@ -530,9 +539,9 @@ def run_history(case, ctx):
 
 def subs(tier):
     return [
-        Sub("boundary_hist", run_history, strategy=history(border=False), quick=2400, thorough=48000, shards_quick=8,
+        Sub("boundary_hist", run_history, strategy=history(border=False), quick=2000, thorough=48000, shards_quick=8,
             shards_thorough=16, timeout_quick=1500),
-        Sub("border_hist", run_history, strategy=history(border=True), quick=1200, thorough=24000, shards_quick=8,
+        Sub("border_hist", run_history, strategy=history(border=True), quick=1000, thorough=24000, shards_quick=8,
             shards_thorough=16, timeout_quick=1500),
     ]
 
